@@ -213,7 +213,10 @@ func runFuzz(w *world, j *judge, cs childSpec) error {
 		if r.Chance(1, 10) {
 			sp.Auth = vlib.Pick(r, "err", "deny", "ok/2/2")
 		}
-		hdr := sp.Authz + "\x00" + sp.Cookie + "\x00" + sp.Origin
+		if kind == 2 && r.Chance(1, 4) {
+			sp.Host = "api.verif.test" // a Host header without a port
+		}
+		hdr := sp.Authz + "\x00" + sp.Cookie + "\x00" + sp.Origin + "\x00" + sp.Host
 		j.b.Distinct([]byte("fuzz"), []byte(hdr))
 		j.b.Count("fuzz_headers", 1)
 		j.b.Count(fmt.Sprintf("fuzz_kind_%d", kind), 1)
@@ -222,7 +225,7 @@ func runFuzz(w *world, j *judge, cs childSpec) error {
 			sp2 := *sp
 			sp2.Method, sp2.Path, sp2.Target = mv.Method, t.Path, t.T
 			j.replay = func(s *reqSpec) any {
-				return tableReplay{Mode: "fuzz", CredTag: "fuzz", Path: s.Path, Method: s.Method, Origin: s.Origin, Via: "handler", Auth: s.Auth, Authz: s.Authz, Cookie: s.Cookie, Dev: w.model.Dev}
+				return tableReplay{Mode: "fuzz", CredTag: "fuzz", Path: s.Path, Method: s.Method, Origin: s.Origin, Via: "handler", Auth: s.Auth, Authz: s.Authz, Cookie: s.Cookie, Dev: w.model.Dev, Host: s.Host}
 			}
 			// (sessions issued here are never presented: fuzzed cookies derive from the fixed list)
 			o, e := j.run(&sp2)
